@@ -106,6 +106,11 @@ def step (s : St) (op impl : String) : St × StepOut :=
       [("initial_keys_rfc", "-", s!"version {ver} dcid {hx dcid}: derived {impl}, RFC 9001 §5.2 / RFC 9369 §3.3 give {model}")] else []
     ({ s with lHighest := [0, 0], gHighL := [0, 0], lkey := s!"L{ver}:{hx dcid}", lk := lk },
       mk model ["linit", s!"linit:v{ver}", s!"linit:dcid{if dcid.length == 0 then "0" else if dcid.length < 8 then "<8" else if dcid.length ≤ 20 then "8-20" else ">20"}"] fails)
+  | "retry" =>
+    let ver : Nat := if arg 1 == 2 then 2 else 1
+    let tag := hx (retryIntegrityTag ver ((ofHex (sarg 2)).getD []) ((ofHex (sarg 3)).getD []))
+    (s, mk tag ["retry", s!"retry:v{ver}"]
+      (if impl ≠ tag then [("retry_tag_rfc", "-", s!"version {ver}: tag {impl}, RFC 9001 §5.8 / RFC 9369 §3.3.3 give {tag}")] else []))
   | "sinit" =>
     let ver : Nat := if arg 2 == 2 then 2 else 1
     let suite := (arg 1).toNat % 3
